@@ -82,7 +82,7 @@ Theorem C03_response_content : forall f q c hs added b content,
   exists w, respond q f c hs added b = Some w /\
     (w = failure 500 \/
      (w_status w = br_status b /\ same_e2e (w_headers w) (br_headers b) /\
-      decode f (w_headers w) (w_body w) = Some (adapted (p_rs c) content))).
+      decode f (w_headers w) (w_body w) = Some (owed c (br_status b) content))).
 Proof. exact response_content_total. Qed.
 Print Assumptions C03_response_content.
 
